@@ -29,19 +29,20 @@ ASSUMPTIONS = ['observable behaviour = bytes of probe values, repr of decoded va
                'reference = compile_string on the original text in the same process']
 REPORT = ['modules', 'histories', 'evaluations', 'probe_comparisons', 'plain_data_walks', 'pformat_eval_roundtrips',
           'ordered_pairs_covered']
-FLOORS = {'quick': {'histories': 1000, 'probe_comparisons': 20000}, 'thorough': {'histories': 10000}}
+FLOORS = {'quick': {'histories': 1000, 'probe_comparisons': 20000},
+          'thorough': {'histories': 4000, 'probe_comparisons': 80000}}
 TIMEOUT = {'quick': 1800, 'thorough': 14000}
 PLAIN = (dict, list, tuple, str, int, float, bool, bytes, type(None))
 
 
 def shards(tier):
-    return 32 if tier == 'quick' else 128
+    return 32 if tier == 'quick' else 64
 
 
 def params(tier):
     if tier == 'quick':
         return {'modules': 4, 'histories': 10, 'values': 4}
-    return {'modules': 14, 'histories': 24, 'values': 6}
+    return {'modules': 12, 'histories': 30, 'values': 6}
 
 
 def profile(tier):
